@@ -1672,9 +1672,11 @@ class CPF( dfa ):
                         predicate=lambda path=None, data=None, typ=typ, **kwds: data[path].type_id == typ )
 
         # If we don't recognize the CPF item type, just parse remainder into .input (so we could re-generate)
-        ilen[None]	= urec	= octets( 	'unrecognized',	context=None,
+        urec			= octets( 	'unrecognized',	context=None,
                                                 terminal=True )
         urec[True]		= urec
+        ilen[None]		= dfa(		'unrecognized',	context=None,	initial=urec,
+                                                terminal=True,	limit='.length' ) # not beyond this item
 
         # Each item is collected into '.item__', 'til no more input available, and then moved into
         # place into '.item' (init to [])
